@@ -242,6 +242,11 @@ theorem ignoreValue_T (ext : Spec.Program.Ext) (hext : Spec.Program.ExtOK ext) (
   rcases hs with rfl | ⟨c, tl, rfl, hc⟩
   · cases hr
   · cases hr
-    rcases hc with rfl | rfl | rfl | rfl <;> decide
+    rcases hc with rfl | rfl | rfl | rfl | hw
+    · decide
+    · decide
+    · decide
+    · decide
+    · rcases isWs_cases hw with rfl | rfl | rfl | rfl <;> decide
 
 end SJ.Proofs.Typed
